@@ -15,7 +15,7 @@ import (
 func init() {
 	register(&Rule{
 		Name:     "INDEXLOWER",
-		Doc:      "every slice/array access whose index is (a conversion of) a signed integer parameter and whose function tests that parameter against len(…) (a dominating bound check, or the grow-then-index idiom) is also dominated by a test that excludes negative values (`i < 0`, `i >= 0`, `i > c`, c >= -1) — or the parameter is unsigned",
+		Doc:      "every slice/array access whose index is (a conversion of) a signed integer parameter and whose function tests that parameter against len(…) (a dominating bound check, or the grow-then-index idiom) is also dominated by a test that excludes negative values (`i < 0`, `i >= 0`, `i > c`, c >= -1) — or the parameter is unsigned; (b) a signed index parameter that is compared with an element count decoded from a container header (COUNTCMP's notion) is also compared with 0 somewhere in the function",
 		Configs:  "NP",
 		Floor:    map[string]int{"N": 2, "P": 2},
 		Controls: 1,
@@ -59,6 +59,55 @@ func runIndexLower(rc *RuleCtx) {
 	for _, fn := range rc.W.Funcs {
 		if fn.Blocks == nil {
 			continue
+		}
+		// clause (b): an element index compared with the container's header count
+		for _, b := range fn.Blocks {
+			for _, ins := range b.Instrs {
+				bo, ok := ins.(*ssa.BinOp)
+				if !ok || (bo.Op != token.GEQ && bo.Op != token.LSS && bo.Op != token.GTR && bo.Op != token.LEQ) {
+					continue
+				}
+				var p *ssa.Parameter
+				if headerCount(bo.Y, 0) {
+					p = paramRoot(bo.X, 0)
+				} else if headerCount(bo.X, 0) {
+					p = paramRoot(bo.Y, 0)
+				}
+				if p == nil {
+					continue
+				}
+				bt, ok := p.Type().Underlying().(*types.Basic)
+				if !ok || bt.Info()&types.IsInteger == 0 || bt.Info()&types.IsUnsigned != 0 {
+					continue
+				}
+				rc.Examined++
+				lower := false
+				for _, ob := range fn.Blocks {
+					for _, oi := range ob.Instrs {
+						o, ok := oi.(*ssa.BinOp)
+						if !ok {
+							continue
+						}
+						var other ssa.Value
+						if paramRoot(o.X, 0) == p {
+							other = o.Y
+						} else if paramRoot(o.Y, 0) == p {
+							other = o.X
+						} else {
+							continue
+						}
+						if k, isC := constInt(other); isC && k >= -1 && k <= 1 {
+							switch o.Op {
+							case token.LSS, token.GEQ, token.GTR, token.LEQ:
+								lower = true
+							}
+						}
+					}
+				}
+				rc.verdict(lower, fn, "element index "+p.Name(), bo.Pos(), map[bool]string{
+					true:  "the signed element index is bounded on both sides",
+					false: "the signed element index `" + p.Name() + "` is compared with the container's element count but never with 0: a negative index passes the bound check and addresses element 0 (or worse) instead of being rejected"}[lower], true)
+			}
 		}
 		for _, b := range fn.Blocks {
 			for _, ins := range b.Instrs {
